@@ -275,6 +275,9 @@ def gen_queries(rng, tier):
     for name in mods:
         valid = corpus[name]['valid']
         picks = valid if len(valid) <= per_mod else rng.sample(valid, per_mod)
+        # the synthesised edge numbers (ends of range tables, longest / letter-richest shapes) are always sent:
+        # a page that fails to render shows on such numbers, not on the documentation samples
+        picks = list(picks) + [v for v in corpus[name].get('boundary', [])[:12] + corpus[name].get('extremal', [])[:6] if v not in picks]
         for v in picks:
             out.append(('valid:' + name, 'number=' + q(v)))
     n_mut = 400 if tier == 'quick' else 4500
